@@ -213,7 +213,7 @@ def dump(ctx, name, c):
     ctx.tlc(name, r)
     if not r.tr:
         raise core.Machinery("dump %s produced no transitions" % name)
-    return graph.Graph(r.tr)
+    return graph.from_dump(r)
 
 
 def edge_class(g, ei):
@@ -246,6 +246,8 @@ def replay_graph(ctx, name, g, per_class=None):
                 cnt[c] = cnt.get(c, 0) + 1
                 only.append(ei)
         ctx.cov.setdefault("edge_classes", {})[name] = len(cnt)
+    if g.unreachable:
+        raise core.Machinery('dump has %d unreachable transitions' % g.unreachable)
     segs = g.tour(maxlen=60, only=only)
     jobs = []
     for seg in segs:
